@@ -30,6 +30,12 @@ def run(ctx):
         j = e2ejobs.job(rng, jobs=1, delays=False, size='small' if i % 3 else 'medium',
                         strategy=['hierarchical', 'hybrid', 'ddmin'][i % 3])
         base.append(j)
+    # ddmin groups the first simplification of every node of a subset into one candidate: inputs on which mutators that
+    # introduce declarations apply to several nodes at once
+    grp = ('(set-logic ALL)\n' + ''.join(f'(declare-const b{k} (_ BitVec {4 + k}))\n' for k in range(5)) + '(declare-const s String)\n(declare-const t String)\n'
+           + ''.join(f'(assert (= b{k} (bvadd b{k} b{k})))\n' for k in range(5)) + '(assert (str.contains s "ab"))\n(assert (str.contains t "cd"))\n(check-sat)\n')
+    for st in (['ddmin', 'hybrid', 'ddmin'] if ctx.thorough else ['ddmin']):
+        base.append(dict(text=grp, opts=['--strategy', st, '-j', '1'], cmd=[e2e.TOKPRED, rng.choice(['all', 'hash5']), 'check-sat'], env={}))
     variants = [dict(PYTHONHASHSEED='0'), dict(PYTHONHASHSEED='1', VERIF_CMD_DELAY='7', VERIF_WORKER_DELAY='3'),
                 dict(PYTHONHASHSEED='987654', VERIF_CMD_DELAY='25', VERIF_SLOW_CONSUMER='4')]
     jobs = []
@@ -94,7 +100,10 @@ def run(ctx):
             env = dict(os.environ, PYTHONPATH=os.path.join(common.VERIF, 'harness'), PYTHONHASHSEED=seed)
             p = subprocess.run([common.PY, os.path.join(common.VERIF, 'harness', 'proposals.py'), fn], stdout=subprocess.PIPE,
                                stderr=subprocess.DEVNULL, text=True, env=env, timeout=300)
-            return p.stdout
+            # ... and the grouped candidates of ddmin's task generator
+            q = subprocess.run([common.PY, os.path.join(common.VERIF, 'harness', 'proposals.py'), '--ddmin', fn], stdout=subprocess.PIPE,
+                               stderr=subprocess.DEVNULL, text=True, env=env, timeout=300)
+            return p.stdout + q.stdout
         seeds = ['0', '1', '424242']
         with concurrent.futures.ThreadPoolExecutor(max(2, common.NCPU // 2)) as ex:
             outs = list(ex.map(dump, [(fn, sd) for fn in files for sd in seeds]))
